@@ -5,7 +5,7 @@
 //! refuse at a chosen event.  Everything recorded is compared with the grep model computed directly.
 #![allow(dead_code)]
 use grep_matcher::{Match, Matcher, NoCaptures, NoError};
-use crate::{Searcher, SearcherBuilder, Sink, SinkContext, SinkContextKind, SinkFinish, SinkMatch};
+use crate::{BinaryDetection, Searcher, SearcherBuilder, Sink, SinkContext, SinkContextKind, SinkFinish, SinkMatch};
 use crate::searcher::glue_twin_access::{slice_by_line_run};
 
 pub struct ByteMatcher(pub u8);
@@ -172,6 +172,40 @@ impl<'a> std::io::Read for Chunked<'a> {
     }
 }
 
+/// a sink that only checks that no delivered line contains the NUL byte
+pub struct NoNul { pub bad: bool, pub events: usize }
+impl Sink for NoNul {
+    type Error = std::io::Error;
+    fn matched(&mut self, _s: &Searcher, m: &SinkMatch<'_>) -> Result<bool, std::io::Error> {
+        self.events += 1;
+        if m.bytes().contains(&0) { self.bad = true; }
+        Ok(true)
+    }
+    fn context(&mut self, _s: &Searcher, c: &SinkContext<'_>) -> Result<bool, std::io::Error> {
+        self.events += 1;
+        if c.bytes().contains(&0) { self.bad = true; }
+        Ok(true)
+    }
+}
+
+/// C14 (quit mode): whatever the strategy, flags and position of the NUL byte -- also beyond the first
+/// 64 KiB that the slice strategy sniffs -- no delivered match or context line contains it
+pub fn quit_mode_never_delivers_nul(prefix_lines: usize, tail: &[u8], invert: bool, after: usize, before: usize, stop_on_nonmatch: bool, reader: bool) -> bool {
+    let mut input: Vec<u8> = Vec::with_capacity(prefix_lines * 8 + tail.len());
+    for _ in 0..prefix_lines { input.extend_from_slice(b"filler.\n"); }
+    input.extend_from_slice(tail);
+    let mut searcher = SearcherBuilder::new().line_number(true).invert_match(invert)
+        .after_context(after).before_context(before).stop_on_nonmatch(stop_on_nonmatch)
+        .binary_detection(BinaryDetection::quit(0)).build();
+    let mut sink = NoNul { bad: false, events: 0 };
+    let r = if reader {
+        searcher.search_reader(ByteMatcher(b'x'), Chunked { data: &input, pos: 0, chunk: 4096 }, &mut sink)
+    } else {
+        searcher.search_slice(ByteMatcher(b'x'), &input, &mut sink)
+    };
+    r.is_ok() && !sink.bad
+}
+
 /// a reader that fails at its `fail_at`-th read call (persistently), handing out `chunk` bytes per read before
 pub struct Failing<'a> { pub data: &'a [u8], pub pos: usize, pub chunk: usize, pub calls: usize, pub fail_at: usize }
 impl<'a> std::io::Read for Failing<'a> {
@@ -274,6 +308,12 @@ pub fn replay_main() -> i32 {
     let ctx: usize = std::env::var("VERIF_REPLAY_CTX").ok().and_then(|v| v.parse().ok()).unwrap_or(0);
     let after: usize = std::env::var("VERIF_REPLAY_AFTER").ok().and_then(|v| v.parse().ok()).unwrap_or(ctx);
     let before: usize = std::env::var("VERIF_REPLAY_BEFORE").ok().and_then(|v| v.parse().ok()).unwrap_or(ctx);
+    if std::env::var("VERIF_REPLAY_BINARY").is_ok() {
+        let g = |k: &str| std::env::var(k).ok().and_then(|v| v.parse::<usize>().ok()).unwrap_or(0);
+        let ok = quit_mode_never_delivers_nul(g("VERIF_REPLAY_PREFIX"), &bytes, inv, after, before, g("VERIF_REPLAY_SON") != 0, g("VERIF_REPLAY_READER") != 0);
+        println!("replay: quit-mode search (prefix {} filler lines, tail {:?}): {}", g("VERIF_REPLAY_PREFIX"), bytes, if ok { "no NUL delivered" } else { "A NUL BYTE WAS DELIVERED" });
+        return if ok { 0 } else { 1 };
+    }
     if std::env::var("VERIF_REPLAY_REFERENCE").is_ok() {
         let ok = slice_matches_reference(&bytes, b'x', inv, after, before);
         println!("replay: slice search of {:?} (invert={}, after={}, before={}) vs the grep reference model: {}", bytes, inv, after, before, if ok { "equal" } else { "DIFFERENT" });
@@ -342,6 +382,27 @@ pub fn exhaustive_small() -> bool {
                     }
                 }
             }}}
+        }
+    }
+    // C14: inputs over {x, \n, a, NUL} up to 4 bytes, directly and behind a 72 KiB prefix of filler lines
+    let alpha4 = [b'x', b'\n', b'a', 0u8];
+    let mut u = [0u8; 4];
+    for n in 0..=4usize {
+        let total = 4usize.pow(n as u32);
+        for code in 0..total {
+            let mut c = code;
+            for i in 0..n { u[i] = alpha4[c % 4]; c /= 4; }
+            if !u[..n].contains(&0) { continue; }
+            for prefix in [0usize, 9216] { for inv in [false, true] { for after in 0..2usize { for before in 0..2usize {
+                for son in [false, true] { for reader in [false, true] {
+                    if !quit_mode_never_delivers_nul(prefix, &u[..n], inv, after, before, son, reader) {
+                        println!("FAILING CASE binary-quit prefix_lines={} tail={:?} invert={} after={} before={} stop_on_nonmatch={} reader={}", prefix, &u[..n], inv, after, before, son, reader);
+                        println!("VERIF_REPLAY_HEX={} VERIF_REPLAY_INVERT={} VERIF_REPLAY_AFTER={} VERIF_REPLAY_BEFORE={} VERIF_REPLAY_PREFIX={} VERIF_REPLAY_SON={} VERIF_REPLAY_READER={} VERIF_REPLAY_BINARY=1",
+                            u[..n].iter().map(|b| format!("{:02x}", b)).collect::<String>(), inv as u8, after, before, prefix, son as u8, reader as u8);
+                        return false;
+                    }
+                }}
+            }}}}
         }
     }
     true
